@@ -198,6 +198,9 @@ func (d *kdriver) apply(o kop) string {
 		from, to := kAcct(o.Acct), kAcct(o.To)
 		fb, tb := d.db.GetBalance(from), d.db.GetBalance(to)
 		amt := big.NewInt(o.Amount)
+		if amt.Cmp(fb) > 0 {
+			amt = new(big.Int).Set(fb) // the VM never transfers more than the balance (CanTransfer)
+		}
 		d.t.TransferWithRecord(d.db, from, to, amt, func(_ avm.StateDB, f, t common.Address, a *big.Int) {
 			d.db.bal[f] = new(big.Int).Sub(d.db.GetBalance(f), a)
 			d.db.bal[t] = new(big.Int).Add(d.db.GetBalance(t), a)
